@@ -132,6 +132,20 @@ func buildC10(c *core.Ctx, v c10Variant, root string) (*c10Chain, error) {
 		cmd.Dump(filepath.Join(ch.linkDir, gen.LinkName("delegated", D.Pub.KeyID)))
 		layout.Steps = append(layout.Steps, gen.Step("delegated", 1, gen.KeyIDs(D), [][]string{{"ALLOW", "*"}}, [][]string{{"ALLOW", "*"}}))
 		layout.Keys[D.Pub.KeyID] = D.Pub
+		// a second step delegated to another functionary's sublayout (the first sublayout is signed by its own functionary only, the second one by its own and by the first)
+		D2 := fast[10]
+		child2 := &gen.Nest{Level: 1, Signer: D2, Prep: fast[6], Sub: fast[7], Final: fast[5]}
+		child2.Build()
+		subDir2 := filepath.Join(ch.linkDir, fmt.Sprintf(intoto.SublayoutLinkDirFormat, "delegated-too", D2.Pub.KeyID))
+		cmd2, err := child2.WriteLinks(subDir2, v.DSSE)
+		if err != nil {
+			return nil, err
+		}
+		// ... and additionally co-signed by the first functionary (a surplus signature that no check asks for)
+		cmd2.Sign(D.Priv)
+		cmd2.Dump(filepath.Join(ch.linkDir, gen.LinkName("delegated-too", D2.Pub.KeyID)))
+		layout.Steps = append(layout.Steps, gen.Step("delegated-too", 1, gen.KeyIDs(D2), [][]string{{"ALLOW", "*"}}, [][]string{{"ALLOW", "*"}}))
+		layout.Keys[D2.Pub.KeyID] = D2.Pub
 	}
 	signers := []intoto.Key{owner.Priv}
 	ch.keys = gen.KeyMap(owner)
@@ -360,6 +374,8 @@ func runC10(c *core.Ctx) {
 						c.Obs("two_layout_keys_both_signed_accepted", 1)
 					case (v.LayoutKeys == "unsigned-second" || v.LayoutKeys == "invalid-second") && !first.Accepted:
 						c.Obs("two_layout_keys_one_not_signed_rejected", 1)
+					case v.Sublayout && first.Accepted:
+						c.Obs("chains_with_two_sublayouts_accepted", 1)
 					case v.RelExe && first.Accepted && first.Markers == "mark1" && baseline["none"].Accepted:
 						c.Obs("relative_inspection_executable_ran", 1)
 					}
@@ -412,6 +428,7 @@ func runC10(c *core.Ctx) {
 			removeAll(ch.root)
 		}
 	}
+	c10KeyIDHistory(c)
 	c.Obs("history_steps_equal_to_fresh_baseline", same)
 	c.Obs("histories_with_untouched_inputs", untouched)
 	// calibration of the runtime's map randomisation: distinct orders of a 3-element map over R ranges
@@ -425,6 +442,66 @@ func runC10(c *core.Ctx) {
 		orders[s] = true
 	}
 	c.Obs("map_orders_seen_in_calibration", int64(len(orders)))
+}
+
+// c10KeyIDHistory: the verdict is a function of the supplied inputs, not of what the process verified
+// before: two sound chains whose layouts define one key id with different key material (a layout is
+// free to do so) are verified alternately; both must be accepted every time.
+func c10KeyIDHistory(c *core.Ctx) {
+	if c.Shard != 4%c.NShards {
+		return
+	}
+	fast := gen.Fast(Pool(c))
+	owner, A, B := fast[0], fast[1], fast[2]
+	ok := int64(0)
+	for _, dsse := range []bool{false, true} {
+		id := fmt.Sprintf("key-id-history/dsse=%v", dsse)
+		if !c.Want(id) {
+			continue
+		}
+		allow := [][]string{{"ALLOW", "*"}}
+		type chain struct {
+			md  intoto.Metadata
+			dir string
+		}
+		var chains []chain
+		for i, material := range []gen.KeyPair{A, B} {
+			pub, priv := material.Pub, material.Priv
+			pub.KeyID, priv.KeyID = A.Pub.KeyID, A.Pub.KeyID // both layouts call their functionary's key by A's id
+			layout := gen.NewLayout([]intoto.Step{gen.Step("s", 1, []string{A.Pub.KeyID}, allow, allow)}, nil, map[string]intoto.Key{A.Pub.KeyID: pub})
+			md, err := gen.SignedMeta(layout, dsse, owner.Priv)
+			if err != nil {
+				return
+			}
+			dir := filepath.Join(c.WorkDir, fmt.Sprintf("c10-keyid-%d", i))
+			os.RemoveAll(dir)
+			mkdirs(dir)
+			gen.WriteLink(dir, gen.NewLink("s", nil, gen.Artifacts(map[string]string{"out": "o"})), priv, dsse)
+			chains = append(chains, chain{md, dir})
+		}
+		c.Begin(id)
+		var verdicts []bool
+		var errs []string
+		for k := 0; k < 6; k++ {
+			ch := chains[k%2]
+			obs := Verify(VerifyArgs{Layout: ch.md, Keys: gen.KeyMap(owner), LinkDir: ch.dir, Cwd: c.WorkDir})
+			c.Eval(1)
+			verdicts = append(verdicts, obs.Accepted())
+			errs = append(errs, errStr(obs.Err))
+		}
+		c.End(id)
+		c.Class("key-id-history", dsse)
+		bad := false
+		for _, v := range verdicts {
+			bad = bad || !v
+		}
+		if bad {
+			c.Violation("the verdict for a sound chain depends on what was verified earlier in the process (two layouts defining one key id with different key material, verified alternately)", id, map[string]any{"dsse": dsse, "verdicts_in_order": verdicts, "errors": errs})
+		} else {
+			ok++
+		}
+	}
+	c.Obs("key_id_histories_all_accepted", ok)
 }
 
 func variantClass(v c10Variant) string {
@@ -445,7 +522,7 @@ func init() {
 	core.Register(&core.Property{
 		ID:    "C10",
 		Level: "exploration",
-		Rule: "chains biased to the anchors: step with one key-authorized and one certificate-authorized link (threshold 0, 1 and 2; the two links agreeing or disagreeing), certificate constraint lists that are not sorted, rules / expected command / inspection run with {PRODUCT} and {MARK} markers, a link whose artifact path needs cleaning (./bin//app) consumed by a MATCH rule, optionally a step delegated to a sublayout, two supplied layout keys (both signed / second without a signature / second with a corrupt signature), an inspection executable given by a relative path, three valid links of which one disagrees; the layout has an intermediate CA of its own and the caller passes a list of additional intermediates with spare capacity whose backing array is compared before/after; 2 wrappers x 2 entry points; all histories of length<=2 plus 12 of length 3 (quick) / all of length<=3 plus 30 of length 4 (thorough) over the dictionaries {none, p (accepting), q (rejecting), r (a value containing another parameter's marker)} on ONE in-memory layout object: every outcome (verdict, summary, executed marker) must equal the outcome of a freshly loaded copy, and the serialisation of the layout object (payload, signatures, dumped envelope), of the key map and of the dictionary must be unchanged after every call; each baseline is repeated R=16 (quick) / 64 (thorough) times and each history R/4 times with fresh maps. " +
+		Rule: "chains biased to the anchors: step with one key-authorized and one certificate-authorized link (threshold 0, 1 and 2; the two links agreeing or disagreeing), certificate constraint lists that are not sorted, rules / expected command / inspection run with {PRODUCT} and {MARK} markers, a link whose artifact path needs cleaning (./bin//app) consumed by a MATCH rule, optionally two steps delegated to sublayouts of two functionaries, two supplied layout keys (both signed / second without a signature / second with a corrupt signature), an inspection executable given by a relative path, three valid links of which one disagrees; the layout has an intermediate CA of its own and the caller passes a list of additional intermediates with spare capacity whose backing array is compared before/after; 2 wrappers x 2 entry points; all histories of length<=2 plus 12 of length 3 (quick) / all of length<=3 plus 30 of length 4 (thorough) over the dictionaries {none, p (accepting), q (rejecting), r (a value containing another parameter's marker)} on ONE in-memory layout object: every outcome (verdict, summary, executed marker) must equal the outcome of a freshly loaded copy, and the serialisation of the layout object (payload, signatures, dumped envelope), of the key map and of the dictionary must be unchanged after every call; two sound chains whose layouts define one key id with different key material are verified alternately (6 verifications, all accepted); each baseline is repeated R=16 (quick) / 64 (thorough) times and each history R/4 times with fresh maps. " +
 			"non-trivial = history of length>=2 or R>=2 with >=2 links in a step; distinct = (variant, history)",
 		Assumptions: []string{"the iteration order taken inside the library is not observable; reported are R, the number of distinct outcomes per case and the number of distinct orders a same-sized probe map showed in the same process"},
 		Workers:     func(string) int { return 16 },
